@@ -274,7 +274,26 @@ func (in *inst) Apply(op string) string {
 		}
 		in.ks = fresh
 	}
-	return in.observe()
+	if msg := in.observe(); msg != "" {
+		return msg
+	}
+	// what MarshalBinary hands out right now must restore to the same answers (the object stays in use, so
+	// anything it remembers from an earlier serialisation is in play)
+	if in.m.init {
+		data, err := in.ks.MarshalBinary()
+		if err != nil {
+			return "marshal: " + err.Error()
+		}
+		restored := &keystorage.KeyStorage{}
+		if err := restored.UnmarshalBinary(data); err != nil {
+			return "unmarshal of the current serialisation: " + err.Error()
+		}
+		chk := &inst{ks: restored, m: in.m}
+		if msg := chk.observe(); msg != "" {
+			return "a storage restored from MarshalBinary after this operation: " + msg
+		}
+	}
+	return ""
 }
 
 // ---------------------------------------------------------------- tampering
